@@ -33,15 +33,16 @@ package execution
 // newShardedVectorSelector: one vector selector per shard i of numShards = max(1, GOMAXPROCS/2);
 // every shard gets the same selector, options and offset (C02, C11).
 //@ func newShardedVectorSelector
-//@   assigns elems(execution/model.VectorOperator)
+//@   assigns nothing
 //@   requires optsOK(opts) && selector != nil
 //@   ensures[C08] never-fails: result1 == nil && result0 != nil
 //@   at scan.NewVectorSelector assert[C02,C11] shard-args: $selector == selector && $queryOpts == opts && $offset == offset &&
 //@       $shard == i && $numShards == numShards && 0 <= i && i < numShards && numShards >= 1
 //@   loop 0 invariant shards: 0 <= i && i <= numShards && numShards >= 1 && len(operators) == i
+//@   loop 0 invariant[C13] shards-never-panic-in-next: (isnil(operators) || fresh(operators)) && (forall j in 0..len(operators) :: operators[j] != nil && istype(operators[j], *exchange.concurrencyOperator))
 
 //@ func newVectorBinaryOperator
-//@   assigns elems(execution/model.VectorOperator)
+//@   assigns nothing
 //@   requires e != nil && selectorPool != nil && poolInv(selectorPool) && optsOK(opts)
 //@   requires e.LHS.Type() != parser.ValueTypeScalar && e.RHS.Type() != parser.ValueTypeScalar
 //@   requires[C16] hints.Func == "" && len(hints.Grouping) == 0 && !hints.By
@@ -56,7 +57,7 @@ package execution
 // newScalarBinaryOperator: the vector side is passed as `next`, the scalar side as `scalar`; the
 // side flag says where the scalar stood in the expression (C05).
 //@ func newScalarBinaryOperator
-//@   assigns elems(execution/model.VectorOperator)
+//@   assigns nothing
 //@   requires e != nil && selectorPool != nil && poolInv(selectorPool) && optsOK(opts)
 //@   requires[C16] hints.Func == "" && len(hints.Grouping) == 0 && !hints.By
 //@   ensures[C08] err-is-unsupported-or-remote: result1 != nil ==> result1.isNS || result1.isNI || result1.fromRemote
@@ -81,7 +82,7 @@ package execution
 // each operator is built from the node's own parameters.
 //@ pred sameHintsRange(h, g) = h.Start == g.Start && h.End == g.End && h.Step == g.Step
 //@ func newOperator
-//@   assigns elems(execution/model.VectorOperator)
+//@   assigns nothing
 //@   requires storage != nil && poolInv(storage) && optsOK(opts)
 //@   ensures[C08] err-is-unsupported-or-remote: result1 != nil ==> result1.isNS || result1.isNI || result1.fromRemote
 //@   ensures ok-nonnil: result1 == nil ==> result0 != nil
@@ -152,11 +153,18 @@ package execution
 //@       (e.LHS.Type() == parser.ValueTypeScalar || e.RHS.Type() == parser.ValueTypeScalar)
 //@   loop 1 invariant hints-kept: hints.Func == e.Func.Name && len(hints.Grouping) == 0 && !hints.By && sameHintsRange(hints, old(hints)) && hints.Range == old(hints.Range)
 //@   loop 2 invariant shards: 0 <= i && i <= numShards && numShards >= 1
+//@   loop 2 invariant[C13] shards-never-panic-in-next: (isnil(operators) || fresh(operators)) && (forall j in 0..len(operators) :: operators[j] != nil && istype(operators[j], *exchange.concurrencyOperator))
+// A logicalplan.Coalesce is only built by the distributed optimizer, over RemoteExecution nodes (assumed);
+// a remote execution is wrapped into a concurrency operator, whose Next cannot panic.
+//@   ensures[C13] remote-execution-never-panics-in-next: result1 == nil && istype(expr, *logicalplan.RemoteExecution) ==> istype(result0, *exchange.concurrencyOperator)
+//@   at line "operator, err := newOperator(expr, storage, opts, hints)" assume coalesced-expressions-are-remote-executions: istype(e.Expressions[rangeindex], *logicalplan.RemoteExecution)
+//@   at execution.newOperator line "operator, err := newOperator(expr, storage, opts, hints)" assert coalesced-expression-is-planned: $expr == e.Expressions[rangeindex4]
+//@   loop 4 invariant[C13] remote-children-never-panic-in-next: len(operators) == len(e.Expressions) && fresh(operators) && (forall j in 0..rangeindex+1 :: operators[j] != nil && istype(operators[j], *exchange.concurrencyOperator))
 
 // New: the per-query selector pool and options; hints start with the query window and step and
 // no function / grouping (C16); nothing is read from the storage (C08, C17).
 //@ func New
-//@   assigns elems(execution/model.VectorOperator)
+//@   assigns nothing
 //@   requires step >= 0 && lookbackDelta >= 0
 //@   ensures[C08] err-is-unsupported-or-remote: result1 != nil ==> result1.isNS || result1.isNI || result1.fromRemote
 //@   at execution.newOperator assert[C01,C02,C07] options: $expr == expr && $opts.Start == mint && $opts.End == maxt && $opts.Step == step &&
